@@ -51,7 +51,7 @@ func runC19(x *X) {
 		kind string
 		f    string
 	}{
-		{"plain", "zz-%s"}, {"upper", "Fancy-%s"}, {"lower-twin-of-upper", "fancy-%s"}, {"dotted", "a%s.b"}, {"two-dots", "a%s.b.c"}, {"texttable-prefixed", "texttable.zz%s"},
+		{"plain", "zz-%s"}, {"upper", "Fancy-%s"}, {"lower-twin-of-upper", "fancy-%s"}, {"dotted", "a%s.b"}, {"parent-of-dotted", "a%s"}, {"two-dots", "a%s.b.c"}, {"texttable-prefixed", "texttable.zz%s"},
 		{"trailing-dot", "zz%s."}, {"texttable-as-prefix", "texttable-zz%s"}, {"subpackage-as-prefix", "csv-zz%s"}, {"long-name", "zz-%s-" + strings.Repeat("n", 70)}, {"subpackage-lower", "csv"}, {"subpackage-upper", "JSON"}, {"empty", ""}, {"texttable-itself", "texttable"},
 	}
 	maxHist := x.Pick(3, 4)
@@ -187,8 +187,9 @@ func runC19(x *X) {
 					x.Fail("C19.alias", ltags, "auto.New(%q) is a %s, want *texttable.TextTable", L, typ)
 					continue
 				}
-				if d, mine := registered[L]; mine {
-					// the decoration selected is the one registered under exactly this name
+				if d, mine := registered[L]; mine && !strings.Contains(L, ".") {
+					// the decoration selected is the one registered under exactly this name (dotted names are ambiguous
+					// when their first section is registered too: the statement only fixes that both spellings agree)
 					ref := texttable.New()
 					c19Populate(ref)
 					ref.SetDecoration(d)
